@@ -189,6 +189,22 @@ theorem failed_run_leaves_running_open (s : St) (h : Reach (sys allFixed) s) (hf
   | false => rfl
   | true => rcases hrun.r3 hr with h1 | h1 | h1 <;> rw [hf] at h1 <;> cases h1
 
+/-- **Close does not cut into a start-up**: the step in which Close marks the router closed and closes
+    `closingInProgressCh` is only enabled while nobody holds `handlersLock` – a RunHandlers call (Run's own or a later one) that
+    is between two handlers finishes first, so every handler it was going to start is started before any handleClose reacts -/
+theorem close_signals_only_outside_runhandlers (fx : Fix) (s s' : St) (k : Nat) (ha : act fx s (.closeHL k) = some s') :
+    s.hl = .free ∧ (s.closed = false → s'.closing = true ∧ s'.hl = .closer k) := by
+  simp only [act] at ha
+  split at ha
+  · split at ha
+    · rename_i hfree
+      refine ⟨hfree, ?_⟩
+      intro hc
+      simp [hc] at ha; subst ha
+      exact ⟨rfl, rfl⟩
+    · simp at ha
+  · simp at ha
+
 /-- **a second Run returns an error**: from the first Run call on, a Run call only counts an error return and changes
     nothing else -/
 theorem second_run_errors (s : St) (h : Reach (sys allFixed) s) (hr : s.run ≠ .idle) :
